@@ -19,7 +19,6 @@ var skipInit = map[string]bool{
 	"github.com/rs/zerolog":     true,
 	"github.com/rs/zerolog/log": true,
 	"runtime":                   true,
-	"os":                        true,
 	"syscall":                   true,
 	"internal/poll":             true,
 	"internal/cpu":              true,
@@ -76,6 +75,26 @@ func (m *Machine) findIntrinsic(fn *ssa.Function) intrinsic {
 	if o := fn.Origin(); o != nil && o != fn {
 		if in, ok := m.intrinsics[o.String()]; ok {
 			return m.countStub(o.String(), in)
+		}
+	}
+	// harness-defined replacement of an environment-facing function of the package under test:
+	// func verifStub_<Receiver>_<name>(recv, args...) in the same package (engine only; natively the
+	// real function runs against an environment the harness arranges)
+	if fn.Pkg != nil && fn.Synthetic == "" {
+		stubName := "verifStub_" + fn.Name()
+		if recv := fn.Signature.Recv(); recv != nil {
+			rt := recv.Type()
+			if p, ok := rt.(*types.Pointer); ok {
+				rt = p.Elem()
+			}
+			if n, ok := types.Unalias(rt).(*types.Named); ok {
+				stubName = "verifStub_" + n.Obj().Name() + "_" + fn.Name()
+			}
+		}
+		if sf := fn.Pkg.Func(stubName); sf != nil {
+			return m.countStub(name+" (harness stub "+stubName+")", func(mm *Machine, fr *frame, args []Value) Value {
+				return mm.callFunction(fr.caller, sf, args, nil)
+			})
 		}
 	}
 	// synthetic wrappers ($bound, $thunk) keep their body: they call the real thing
